@@ -37,6 +37,7 @@ struct Obj {
 	int from_file_chain = 0;            // how many write/read hops lie behind this object
 	std::map<std::string, Q> saved_obj;  // objective coefficients put aside by `chgobj save=1` (restored by `chgobj v=@`)
 	bool repairable_names = true;       // every name is a plain token or one of the generator's repair-needing names (objects read from damaged files can carry anything)
+	bool tiny_maxtime = false;          // a time limit of 1e-200 s is in force
 	bool has_sos = false;               // read from a file with SOS sets (the round-trip laws of C08/C09 do not speak about those)
 };
 
